@@ -168,6 +168,8 @@ def generate(rng, index, cfg):
         "peer_latency": rng.choice([0.0, 0.2, 5.0]),
         "pre_existing_output": rng.random() < 0.6,
         "wd_flag": rng.random() < 0.5,
+        # git hands the merge tool an empty $BASE for add/add conflicts
+        "tool_base": "empty.ipynb" if (mode == "mergetool" and rng.random() < 0.35) else "a.ipynb",
     }
     swarm = {"clients": rng.choice([1, 1, 2, 3, 4]), "net_faults": rng.random() < 0.4, "frag_style": rng.choice(["whole", "mixed", "tiny", "medium"]),
              "p_malformed": rng.choice([0.15, 0.35, 0.6]), "backpressure": rng.choice([None, None, 64, 1000]),
@@ -469,7 +471,7 @@ class Runner:
         if mode == "mergeweb_out":
             return "nbmerge-web", nbmergeweb.main, common + ["a.ipynb", "b.ipynb", "c.ipynb", "--out", self.output_name]
         if mode == "mergetool":
-            return "git-nbmergetool", nbmergetool.main, common + ["a.ipynb", "b.ipynb", "c.ipynb", self.output_name]
+            return "git-nbmergetool", nbmergetool.main, common + [tw.get("tool_base", "a.ipynb"), "b.ipynb", "c.ipynb", self.output_name]
         raise HarnessError("mode %r" % mode)
 
     # ---------------- reference
@@ -826,7 +828,7 @@ class Runner:
         if kind in ("merge_valid", "merge_malformed") and complete:
             args = ex.get("args")
             if mode == "mergetool":
-                args = {"base": "a.ipynb", "local": "b.ipynb", "remote": "c.ipynb"}
+                args = {"base": self.trace["world"].get("tool_base", "a.ipynb"), "local": "b.ipynb", "remote": "c.ipynb"}
             if args is None:
                 if status is not None and status < 400:
                     self.violate("W4", dict(sig, what="malformed_accepted"), "malformed merge request answered %s" % status)
